@@ -90,10 +90,25 @@ def extents_in(val):
     return out
 
 
+PROBE_RE = re.compile(r"(\|probe:|\]\?)([A-Za-z0-9_@():-]+)")
+
+
+def probe_violation(impl):
+    """the harness cross-checks every iterator against the other routes through the Iterator protocol (nth, skip, count, last,
+    step_by, size_hint, clones); a disagreement with plain next()-draining is reported in place of the end marker"""
+    m = PROBE_RE.search(impl)
+    if m:
+        return "iterator protocol: %s disagrees with the items obtained by next() (an item outside the walk / a wrong count)" % m.group(2)
+    return None
+
+
 def c01_oracle(case, impl):
     """no crash; every handed-out reference lies inside the tag it came from (and inside the declared region)"""
     if impl.startswith("crash") or impl == "harness-panic":
         return "the process crashed / the harness lost control"
+    pv = probe_violation(impl)
+    if pv:
+        return pv
     region = region_of(case)
     secs = sections(impl)
     if not secs.get("ld", "").startswith("ok"):
@@ -201,6 +216,9 @@ def c05_oracle(case, impl):
 
 
 def c18_oracle(case, impl):
+    pv = probe_violation(impl)
+    if pv:
+        return pv
     region = region_of(case)
     secs = sections(impl)
     if not secs.get("ld", "").startswith("ok"):
@@ -253,6 +271,9 @@ def elf_class(v):
 
 
 def c19_oracle(case, impl):
+    pv = probe_violation(impl)
+    if pv:
+        return pv
     region = region_of(case)
     secs = sections(impl)
     if not secs.get("ld", "").startswith("ok"):
@@ -273,6 +294,9 @@ def c19_oracle(case, impl):
     got = m.group(1)
     fits = n * es <= L and (n == 0 or (shndx + 1) * es <= L)
     if not fits:
+        dep = secs.get("elf_sections")
+        if dep not in (None, "-", "P"):
+            return "count=%d entry size=%d shndx=%d reach outside the %d section bytes but the deprecated elf_sections() did not reject them: %s" % (n, es, shndx, L, dep[:60])
         return None if got == "P" else "count=%d entry size=%d shndx=%d reach outside the %d section bytes but were not rejected: %s" % (n, es, shndx, L, got[:60])
     if es not in (40, 64):
         if n == 0:
@@ -294,6 +318,22 @@ def c19_oracle(case, impl):
     exp += "]."
     if got != exp:
         return "ELF iteration differs from the specification: got %s expected %s" % (got[:160], exp[:160])
+    return c19_deprecated(secs, n, es, shndx, size, exp)
+
+
+def c19_deprecated(secs, n, es, shndx, size, exp):
+    """the deprecated BootInformation::elf_sections(): same iteration, same rejections (it may additionally reject an
+    empty table whose string-table index reaches outside the tag)"""
+    dep = secs.get("elf_sections")
+    if dep in (None, "-"):
+        return None
+    if dep == "P":
+        return None if es * shndx > size else "elf_sections() panicked on a tag that sections() accepts"
+    m = re.match(r"(\d+)(\[.*)$", dep)
+    if not m:
+        return "cannot parse elf_sections: " + dep[:60]
+    if int(m.group(1)) != n or m.group(2) != exp:
+        return "deprecated elf_sections() differs from the specification: got %s expected %d%s" % (dep[:160], n, exp[:160])
     return None
 
 
@@ -689,7 +729,8 @@ def c16_oracle(case, impl):
     if t[0] == "BOXED":
         kind = t[1]
         hb = bytes.fromhex(t[2])
-        parts = [bytes.fromhex(x) for x in (t[3] if len(t) > 3 else "").split(",") if x and x != "-"]
+        arg = t[3] if len(t) > 3 else "-"
+        parts = [] if arg == "-" else [b"" if x in ("e", "") else bytes.fromhex(x) for x in arg.split(",")]
         content = b"".join(parts)
         total = 8 + len(content)
         if kind == "ht":
@@ -915,6 +956,35 @@ def c11_oracle(case, impl):
         exp = "@%d:%d{%s}" % (o, r8(s), body)
         if val != exp:
             return "%s: got %s, the specification gives %s" % (name, str(val)[:200], exp[:200])
+    return None
+
+
+def c05_h_oracle(case, impl):
+    """header information-request tags: the request list is [8, size) in 4-byte words; size < 8 or a remainder -> panic"""
+    if impl.startswith("crash") or impl == "harness-panic":
+        return "the process crashed / the harness lost control"
+    region = region_of(case)
+    secs = sections(impl)
+    if not secs.get("ld", "").startswith("ok"):
+        return None
+    walk, wend = hspec_walk(region)
+    ft = None
+    for (o, t, sz, fl) in walk:
+        if t == 1:
+            ft = (o, sz)
+            break
+    val = secs.get("inforeq")
+    if ft is None or val is None:
+        return None
+    o, size = ft
+    if size < 8 or (size - 8) % 4 != 0:
+        return None if val == "P" else "information-request tag of size %d (remainder %d) must be rejected by a controlled panic, got %s" % (size, (size - 8) % 4 if size >= 8 else -1, val[:80])
+    m = re.search(r"requests=\[(\d+):(\d+)\|", val)
+    if not m:
+        return "information-request tag of size %d: no request list in %s" % (size, val[:80])
+    ro, rn = int(m.group(1)), int(m.group(2))
+    if ro != o + 8 or rn != (size - 8) // 4:
+        return "request list [%d,+%d words) but the tag content is [%d,%d)" % (ro, rn, o + 8, o + size)
     return None
 
 
